@@ -11,10 +11,60 @@ def CWF : Cont → Prop
   | .arr _ => True
   | .dict d => DWF d
 
+theorem applyMutT_wf (c c' : Cont) (m : Op) (hw : CWF c) (h : applyMutT c m = .ok c') : CWF c' := by
+  unfold applyMutT applyMut at h
+  split at h
+  · simp at h; exact h ▸ hw
+  · cases c with
+    | arr xs =>
+      cases hx : arrStep xs m with
+      | none => simp [hx] at h; exact h ▸ hw
+      | some r =>
+        cases r with
+        | error e => simp [hx, Except.map] at h
+        | ok p => simp [hx, Except.map] at h; rw [← h]; trivial
+    | dict d =>
+      cases m with
+      | dInsert k v => simp [dictStep] at h; subst h; exact dwf_put d _ _ hw
+      | dRemove k => simp [dictStep] at h; subst h; exact dwf_erase d _ hw
+      | dWrite k v =>
+        simp [dictStep] at h; subst h
+        cases v with
+        | none => exact dwf_erase d _ hw
+        | some v => exact dwf_put d _ _ hw
+      | _ => simp [dictStep] at h <;> (subst h; exact hw)
+
+theorem iterStep_wf (c c' : Cont) (nest : Nat) (w : When) (m : Op) (o : Obs) (hw : CWF c)
+    (h : iterStep c nest w m = some (.ok (c', o))) : CWF c' := by
+  unfold iterStep at h
+  split at h
+  · cases h
+  · simp only [Option.some.injEq] at h
+    cases hr : runProg applyMutT size 0 c (iterProg nest w m) with
+    | error e => simp [hr, Except.map] at h
+    | ok c1 =>
+      simp [hr, Except.map] at h
+      rw [← h.1]
+      exact runProg_invariant applyMutT size CWF (fun c m c' => applyMutT_wf c c' m) _ 0 c c1 hw hr
+
 theorem step_wf (c c' : Cont) (op : Op) (o : Obs) (hw : CWF c) (h : stepT c op = .ok (c', o)) : CWF c' := by
+  by_cases hi : ∃ outer nest w m, op = .iter outer nest w m
+  · obtain ⟨outer, nest, w, m, rfl⟩ := hi
+    have hs : step c (.iter outer nest w m) = iterStep c nest w m := by cases c <;> rfl
+    simp only [stepT, hs] at h
+    cases hr : iterStep c nest w m with
+    | none => simp [hr] at h; exact h.1 ▸ hw
+    | some r =>
+      cases r with
+      | error e => simp [hr] at h
+      | ok p =>
+        simp [hr] at h
+        exact iterStep_wf c c' nest w m o hw (by rw [hr, h])
   cases c with
   | arr xs =>
-    simp only [stepT, step] at h
+    have hs : step (.arr xs) op = (arrStep xs op).map fun r => r.map fun p => (.arr p.1, p.2) := by
+      cases op <;> first | rfl | exact absurd ⟨_, _, _, _, rfl⟩ hi
+    simp only [stepT, hs] at h
     cases hx : arrStep xs op with
     | none => simp [hx] at h; rw [← h.1]; trivial
     | some r =>
@@ -22,8 +72,11 @@ theorem step_wf (c c' : Cont) (op : Op) (o : Obs) (hw : CWF c) (h : stepT c op =
       | error e => simp [hx, Except.map] at h
       | ok p => simp [hx, Except.map] at h; rw [← h.1]; trivial
   | dict d =>
-    simp only [stepT, step] at h
+    have hs : step (.dict d) op = (dictStep d op).map fun p => .ok (.dict p.1, p.2) := by
+      cases op <;> first | rfl | exact absurd ⟨_, _, _, _, rfl⟩ hi
+    simp only [stepT, hs] at h
     cases op with
+    | iter outer nest w m => exact absurd ⟨_, _, _, _, rfl⟩ hi
     | dInsert k v => simp [dictStep] at h; obtain ⟨rfl, _⟩ := h; exact dwf_put d _ _ hw
     | dRemove k => simp [dictStep] at h; obtain ⟨rfl, _⟩ := h; exact dwf_erase d _ hw
     | dWrite k v =>
